@@ -356,7 +356,7 @@ def run(ctx):
     texts = [case_text(i, c) for i, c in enumerate(cases)]
     with open(path, 'w') as f:
         f.write('\n'.join(texts) + '\n')
-    impl, _ = core.run_tool(ctx.harness, ['c06', path], timeout=3000)
+    impl, _ = core.run_tool_sharded(ctx.harness, ['c06'], path)
     impl = [l for l in impl if l]
     by = {int(l.split(' ')[1]): l for l in impl}
     for i, c in enumerate(cases):
@@ -367,7 +367,7 @@ def run(ctx):
         if len(ctx.violations) > 8:
             break
     if ctx.model:
-        model, _ = core.run_tool(ctx.model, ['c06', path], timeout=3000)
+        model, _ = core.run_tool_sharded(ctx.model, ['c06'], path)
         for k, a, b in core.diff_lines(model, impl, limit=5):
             idx = int((a if a != '<missing>' else b).split(' ')[1])
             ctx.violation('model and implementation disagree', case=texts[idx][:600], model=a[:400], impl=b[:400],
